@@ -73,4 +73,54 @@ theorem selectTimeout_timerDiff (clock dl : Nat) :
       simp only
       split <;> split <;> omega
 
+/-! ## what is left of a wait after EINTR (`events_network_select`) -/
+
+/-- `events_timer_min`'s difference is a normalised `struct timeval` holding the time that is left -/
+theorem timerDiff_spec (clock dl : Nat) :
+    (timerDiff clock ((dl / 1000000 : Nat) : Int) ((dl % 1000000 : Nat) : Int)).1 * 1000000 +
+      (timerDiff clock ((dl / 1000000 : Nat) : Int) ((dl % 1000000 : Nat) : Int)).2 = ((dl - clock : Nat) : Int) ∧
+    0 ≤ (timerDiff clock ((dl / 1000000 : Nat) : Int) ((dl % 1000000 : Nat) : Int)).1 ∧
+    0 ≤ (timerDiff clock ((dl / 1000000 : Nat) : Int) ((dl % 1000000 : Nat) : Int)).2 ∧
+    (timerDiff clock ((dl / 1000000 : Nat) : Int) ((dl % 1000000 : Nat) : Int)).2 < 1000000 := by
+  unfold timerDiff
+  simp only
+  split
+  · simp only; omega
+  · split <;> simp only <;> omega
+
+theorem ceilMs_mono {a b : Nat} (h : a ≤ b) : C05.ceilMs a ≤ C05.ceilMs b := by
+  unfold C05.ceilMs C05.INT_MAX
+  split <;> split <;> omega
+
+/-- the conversion to milliseconds of a normalised, non-negative `struct timeval` -/
+theorem selectTimeout_norm (sec usec : Int) (us : Nat) (h0 : 0 ≤ usec) (h1 : usec < 1000000)
+    (h : sec * 1000000 + usec = us) : selectTimeout (some (sec, usec)) = C05.ceilMs us := by
+  unfold selectTimeout C05.ceilMs C05.INT_MAX
+  simp only
+  split <;> split <;> omega
+
+theorem tvCarry_spec (sec usec : Int) (h0 : -1000000 < usec) (h1 : usec < 2000000) :
+    (tvCarry sec usec).1 * 1000000 + (tvCarry sec usec).2 = sec * 1000000 + usec ∧
+    0 ≤ (tvCarry sec usec).2 ∧ (tvCarry sec usec).2 < 1000000 := by
+  unfold tvCarry
+  split
+  · simp only; omega
+  · split
+    · simp only; omega
+    · simp only; exact ⟨trivial, by omega, by omega⟩
+
+/-- `timeLeft` is `ceilMs` of what is left of the wait (nothing once `tstart + tv ≤ tnow`) -/
+theorem timeLeft_eq (tv : Int × Int) (tstart tnow us : Nat) (h0 : 0 ≤ tv.2) (h1 : tv.2 < 1000000)
+    (h : tv.1 * 1000000 + tv.2 = us) : timeLeft tv tstart tnow = C05.ceilMs (tstart + us - tnow) := by
+  unfold timeLeft
+  simp only
+  obtain ⟨c1, c2, c3⟩ := tvCarry_spec (tv.1 - (((tnow / 1000000 : Nat) : Int) - ((tstart / 1000000 : Nat) : Int)))
+    (tv.2 - (((tnow % 1000000 : Nat) : Int) - ((tstart % 1000000 : Nat) : Int))) (by omega) (by omega)
+  generalize tvCarry _ _ = left at c1 c2 c3 ⊢
+  obtain ⟨ls, lu⟩ := left
+  simp only at c1 c2 c3 ⊢
+  split
+  · have : tstart + us - tnow = 0 := by omega
+    rw [this]; rfl
+  · exact selectTimeout_norm ls lu _ c2 c3 (by omega)
 end Percival.Proofs.EventsTQ
